@@ -1109,3 +1109,16 @@ def nearmiss(c, literal=1.5, index=0, which_coef=0, degree=1, power=2, swap_crea
         v = TestFunction(V)
         return inner(e, v) * dx
     return (e * grad(a), _ref_points(c.cell, "interior", 3))
+
+
+@builder
+def one_point_mix(c, q_hi=3, q_lo=1, lo_first=True, degree=2, itype="cell", use_x=True):
+    """Selective reduced integration: the same coefficient under a one-point rule and a higher rule."""
+    V = c.V("Lagrange", degree)
+    f = Coefficient(V)
+    v = TestFunction(c.V("Lagrange", 1))
+    R = (lambda e: e("+")) if itype == "interior_facet" else (lambda e: e)
+    lo = 1.445 * R(f) * R(v) * measure(itype, metadata={"quadrature_degree": q_lo})
+    g = R(f) * ((R(c.x[0]) + 1.0) if use_x else 1.0) * R(f)
+    hi = g * R(v) * measure(itype, metadata={"quadrature_degree": q_hi})
+    return lo + hi if lo_first else hi + lo
